@@ -206,4 +206,50 @@ example : NodeWF exF32Map = true ∧ WT exF32Map exF32Val = true ∧
   decide
 end NonVacuity
 
+/-! ### The tree as it is now
+
+After the two generator `fix:` commits (root map types are looped, a nil pointer key is handed over as an empty
+key text) no switch that Loop consults is left on in `GenCfg.repo` for a non-nil root: the model of the current
+tree *is* the repaired model, so `loop_correct` is a statement about the emitter as it stands. -/
+section CurrentTree
+
+theorem loopN_repo (sc : LoopScript) (ft : Val → Bytes) (p : List Seg) : ∀ (n : Node) (v : Val),
+    loopN GenCfg.repo sc ft n v p = loopN GenCfg.fixed sc ft n v p := by
+  induction p with
+  | nil =>
+    intro n v
+    cases n <;> simp only [loopN] <;> rfl
+  | cons s rest ih =>
+    intro n v
+    cases n with
+    | struct i chld =>
+      simp only [loopN]
+      split
+      · rfl
+      · split
+        · split
+          · rfl
+          · split
+            · rfl
+            · exact ih _ _
+        · rfl
+    | _ => simp only [loopN] <;> rfl
+
+theorem loopM_repo (sc : LoopScript) (ft : Val → Bytes) (n : Node) (v : Val) (p : List Seg) (f : Form)
+    (hf : rootOf f = .ok) : loopM GenCfg.repo sc ft n f v p = loopM GenCfg.fixed sc ft n f v p := by
+  have h1 : rootOfC GenCfg.repo f = .ok := by unfold rootOfC; rw [hf]
+  have h2 : rootOfC GenCfg.fixed f = .ok := by unfold rootOfC; rw [hf]
+  unfold loopM
+  simp only [h1, h2, loopN_repo]
+  rfl
+
+theorem loop_current (sc : LoopScript) (o : Bytes → Seg) (ft : Val → Bytes) (n : Node) (v : Val) (p : List Seg)
+    (f : Form) (hf : rootOf f = .ok) (hwf : NodeWF n = true) (hwt : WT n v = true)
+    (hk : LoopKeysOK o ft sc n v p = true) :
+    loopAccepts sc n v p ((loopM GenCfg.repo sc ft n f v p).groups.map (obsOf o))
+      (loopM GenCfg.repo sc ft n f v p).fin = true := by
+  rw [loopM_repo sc ft n v p f hf]; exact loop_correct sc o ft n v p f hf hwf hwt hk
+
+end CurrentTree
+
 end Inspector.C09
